@@ -333,6 +333,8 @@ def rule_box(ctx: Ctx) -> None:
 
 
 def run(ctx: Ctx) -> None:
+    from rules import generic as _G
+    ctx.run(_G.rule_arity, ("perception_eval.evaluation.sensing", "perception_eval.manager.sensing_evaluation_manager", "perception_eval.common.point"), "R-ARITY", 5)
     ctx.run(rule_classify)
     ctx.run(rule_partition)
     ctx.run(rule_fold)
